@@ -74,9 +74,85 @@ def plan_for(prop, tier, seed):
             ("tiny-xport", True, "dev", lambda ids, rng: G.f_tiny_placement(ids, rng, ifaces=("spi", "p8", "p16"), sample=0.06 if q else 0.5)),
             ("tiny-nobatch", False, "dev", lambda ids, rng: G.f_tiny_placement(ids, rng, ifaces=("rec", "spi"), sample=0.08 if q else 0.5)),
         ]
+    elif prop == "C02":
+        p.rule = ("scenario = configuration + program of DrawTarget calls; non-trivial: at least one call carries an argument "
+                  "outside the bounding box (negative, >= width/height, >= 65536 or an i32 extreme)")
+        p.nontrivial = lambda sc: any(_has_oob(sc, c) for c in sc["calls"])
+        small = [(1, 1), (2, 3), (3, 2), (4, 3)] if q else G.TINY_SIZES
+        p.families = [
+            ("tiny-oob", True, "dev", lambda ids, rng: G.f_tiny_placement(ids, rng, ifaces=("rec",), oob=True, sample=0.25 if q else 1.0)),
+            ("tiny-oob-nobatch", False, "dev", lambda ids, rng: G.f_tiny_placement(ids, rng, ifaces=("rec", "spi"), oob=True, sample=0.05 if q else 0.4)),
+            ("oob-streams", True, "dev", lambda ids, rng: G.f_oob_streams(ids, rng, G.tiny_model_list(small, rng, 6 if q else 30), ifaces=("rec", "spi") if q else ("rec", "spi", "p8", "p16"))),
+            ("oob-streams-nobatch", False, "dev", lambda ids, rng: G.f_oob_streams(ids, rng, G.tiny_model_list(small, rng, 3 if q else 20))),
+            ("oob-rects", True, "dev", lambda ids, rng: G.f_oob_rects(ids, rng, G.tiny_model_list(small, rng, 4 if q else 30), ifaces=("rec", "spi"))),
+            ("oob-real", True, "dev", lambda ids, rng: G.f_oob_streams(ids, rng, G.real_model_list(rng, ["st7789", "gc9107"] if q else None, full=not q), n_per_cfg=4)
+                                                       + G.f_oob_rects(ids, rng, G.real_model_list(rng, ["ili9341_666", "st7735s"] if q else None, full=not q), n_per_cfg=4)),
+        ]
+    elif prop == "C03":
+        p.rule = ("scenario = configuration + draw_iter streams (colour i on the i-th element); non-trivial: a stream of at "
+                  "least 2 pixels that contains a left-to-right adjacency or a repeated position")
+        p.nontrivial = lambda sc: any(c["name"] == "draw_iter" and len(c["px"]) >= 2 for c in sc["calls"])
+        p.families = [
+            ("long", True, "dev", lambda ids, rng: G.f_long_streams(ids, rng, 250 if q else 4000, ifaces=("rec", "rec", "spi", "p8"))),
+            ("long-nobatch", False, "dev", lambda ids, rng: G.f_long_streams(ids, rng, 60 if q else 600, ifaces=("rec", "spi"), maxlen=150)),
+            ("tiny-streams", True, "dev", lambda ids, rng: G.f_tiny_placement(ids, rng, ifaces=("rec",), sample=0.1 if q else 0.6)),
+        ]
+    elif prop == "C04":
+        p.rule = ("scenario = configuration + fill_contiguous calls; non-trivial: a rectangle that is partly clipped or a colour "
+                  "stream whose length differs from the area")
+        p.nontrivial = lambda sc: any(c["name"] == "fill_contiguous" for c in sc["calls"])
+        p.families = [
+            ("contig-tiny", True, "dev", lambda ids, rng: G.f_contig_tiny(ids, rng, sample=0.15 if q else 1.0)),
+            ("contig-rects", True, "dev", lambda ids, rng: G.f_oob_rects(ids, rng, G.tiny_model_list([(2, 3), (4, 3), (7, 5)], rng, 4 if q else 40), ifaces=("rec", "spi", "p8"))),
+            ("contig-real", True, "dev", lambda ids, rng: G.f_oob_rects(ids, rng, G.real_model_list(rng, ["st7789", "ili9486_666"] if q else None, full=not q), n_per_cfg=5, ifaces=("rec",))),
+        ]
+    elif prop == "C08":
+        p.rule = ("scenario = configuration + drawing program (all entry points, in- and out-of-bounds); non-trivial: at least "
+                  "one drawing call that emits a pixel burst")
+        p.nontrivial = lambda sc: len(drawing_calls(sc)) >= 1
+        small = [(2, 3), (3, 2), (4, 3)] if q else G.TINY_SIZES
+        p.families = [
+            ("tiny-in", True, "dev", lambda ids, rng: G.f_tiny_placement(ids, rng, ifaces=("rec", "spi", "p8", "p16"), sample=0.05 if q else 0.5)),
+            ("tiny-oob", True, "dev", lambda ids, rng: G.f_tiny_placement(ids, rng, ifaces=("rec", "spi"), oob=True, sample=0.06 if q else 0.5)),
+            ("tiny-nobatch", False, "dev", lambda ids, rng: G.f_tiny_placement(ids, rng, ifaces=("rec",), oob=True, sample=0.05 if q else 0.5)),
+            ("oob-streams", True, "dev", lambda ids, rng: G.f_oob_streams(ids, rng, G.tiny_model_list(small, rng, 4 if q else 30), ifaces=("rec", "p8"))),
+            ("long", True, "dev", lambda ids, rng: G.f_long_streams(ids, rng, 80 if q else 1500, ifaces=("rec", "spi"))),
+            ("oob-rects", True, "dev", lambda ids, rng: G.f_oob_rects(ids, rng, G.tiny_model_list(small, rng, 3 if q else 30), ifaces=("rec",))),
+        ]
+    elif prop == "C10":
+        p.rule = ("scenario = initial configuration + sequence of set_orientation calls, each followed by corner pixels, a "
+                  "clipped fill, a clipped contiguous fill and a stream; non-trivial: at least one orientation change to a "
+                  "different orientation")
+        p.nontrivial = lambda sc: any(c["name"] == "set_orientation" and (c["rot"], c["mir"]) != (sc["cfg"]["rot"], sc["cfg"]["mir"]) for c in sc["calls"])
+        p.families = [
+            ("reorient-tiny", True, "dev", lambda ids, rng: G.f_reorient(ids, rng, G.tiny_model_list([(2, 3), (3, 2), (4, 3), (1, 1), (3, 3)], rng, 8 if q else 60), ifaces=("rec",))),
+            ("reorient-xport", True, "dev", lambda ids, rng: G.f_reorient(ids, rng, G.tiny_model_list([(2, 3), (4, 3)], rng, 3 if q else 20), ifaces=("spi", "p8", "p16"), sample=0.5 if q else 1.0)),
+            ("reorient-real", True, "dev", lambda ids, rng: G.f_reorient(ids, rng, G.real_model_list(rng, ["st7789", "ili9341_666", "gc9a01"] if q else None, full=not q), ifaces=("rec",), sample=0.5 if q else 1.0)),
+            ("reorient-nobatch", False, "dev", lambda ids, rng: G.f_reorient(ids, rng, G.tiny_model_list([(2, 3), (4, 3)], rng, 3 if q else 20), ifaces=("rec",))),
+        ]
+    elif prop == "C20":
+        p.rule = ("scenario = configuration + fills / long streams; non-trivial: a fill with a visible part, or a stream with a "
+                  "left-to-right run of at least 2 pixels; the row capacity is measured from one 1000-pixel run")
+        p.nontrivial = lambda sc: len(drawing_calls(sc)) >= 1
+        p.families = [
+            ("overhead", True, "dev", lambda ids, rng: [G.measure_rowcap(ids)] + G.f_long_streams(ids, rng, 150 if q else 3000, ifaces=("rec", "spi")) ),
+            ("overhead-fills", True, "dev", lambda ids, rng: G.f_tiny_placement(ids, rng, ifaces=("rec", "spi"), sample=0.05 if q else 0.5)
+                                            + G.f_oob_rects(ids, rng, G.tiny_model_list([(4, 3), (7, 5)], rng, 3 if q else 30), ifaces=("spi",))),
+        ]
     else:
         raise ToolError("no plan for property %s" % prop)
     return p
+
+
+def _has_oob(sc, c):
+    w, h = sc["cfg"].get("w", 1), sc["cfg"].get("h", 1)
+    lw, lh = (w, h) if sc["cfg"].get("rot", 0) in (0, 2) else (h, w)
+    if c["name"] == "draw_iter":
+        return any(not (0 <= p[0] < lw and 0 <= p[1] < lh) for p in c["px"])
+    if c["name"] in ("fill_solid", "fill_contiguous"):
+        r = c["rect"]
+        return r[2] > 0 and r[3] > 0 and not (r[0] >= 0 and r[1] >= 0 and r[0] + r[2] <= lw and r[1] + r[3] <= lh)
+    return False
 
 
 # ----------------------------------------------------------------------------- running
